@@ -12,9 +12,30 @@ import (
 	"github.com/nuetzliches/hookaido/internal/verifhook"
 )
 
+// RoutePlan holds every per-route decision of one request, taken from a single
+// consistent configuration snapshot, so a config reload that lands while the
+// request is in flight cannot make it mix old and new settings.
+type RoutePlan struct {
+	Route          string
+	BasicAuth      *BasicAuth
+	ForwardAuth    *ForwardAuth
+	HMACAuth       *HMACAuth
+	MaxBodyBytes   int64
+	MaxHeaderBytes int
+	Targets        []string
+
+	// AllowedMethods is set when no route matched but some route matches
+	// everything except the method.
+	AllowedMethods []string
+}
+
 type Server struct {
-	Store                 queue.Store
-	Target                string
+	Store  queue.Store
+	Target string
+	// PlanRoute, when set, replaces ResolveRoute, AllowedMethodsFor, BasicAuthFor,
+	// ForwardAuthFor, HMACAuthFor, LimitsFor and TargetsFor: all of them are
+	// answered at once from one configuration snapshot.
+	PlanRoute             func(r *http.Request, requestPath string) (plan RoutePlan, ok bool)
 	ResolveRoute          func(r *http.Request, requestPath string) (route string, ok bool)
 	AllowedMethodsFor     func(r *http.Request, requestPath string) []string
 	AllowRequestFor       func(route string) bool
@@ -44,10 +65,24 @@ func NewServer(store queue.Store) *Server {
 
 func (s *Server) ServeHTTP(w http.ResponseWriter, r *http.Request) {
 	requestPath := path.Clean(r.URL.Path)
-	route, ok := s.resolveRoute(r, requestPath)
+	var plan *RoutePlan
+	var route string
+	var ok bool
+	if s.PlanRoute != nil {
+		p, planned := s.PlanRoute(r, requestPath)
+		plan, route, ok = &p, p.Route, planned
+	} else {
+		route, ok = s.resolveRoute(r, requestPath)
+	}
 	if !ok {
-		if s.AllowedMethodsFor != nil {
-			if allowed := s.AllowedMethodsFor(r, requestPath); len(allowed) > 0 {
+		if plan != nil || s.AllowedMethodsFor != nil {
+			var allowed []string
+			if plan != nil {
+				allowed = plan.AllowedMethods
+			} else {
+				allowed = s.AllowedMethodsFor(r, requestPath)
+			}
+			if len(allowed) > 0 {
 				w.Header().Set("Allow", strings.Join(allowed, ", "))
 				w.WriteHeader(http.StatusMethodNotAllowed)
 				s.observe(false, 0)
@@ -83,8 +118,14 @@ func (s *Server) ServeHTTP(w http.ResponseWriter, r *http.Request) {
 		}
 	}
 
-	if s.BasicAuthFor != nil {
-		if a := s.BasicAuthFor(route); a != nil {
+	if plan != nil || s.BasicAuthFor != nil {
+		var a *BasicAuth
+		if plan != nil {
+			a = plan.BasicAuth
+		} else {
+			a = s.BasicAuthFor(route)
+		}
+		if a != nil {
 			if !a.Verify(r) {
 				w.WriteHeader(http.StatusUnauthorized)
 				s.observe(false, 0)
@@ -96,8 +137,14 @@ func (s *Server) ServeHTTP(w http.ResponseWriter, r *http.Request) {
 
 	maxBody := s.MaxBodyBytes
 	maxHeaders := s.MaxHeaderBytes
-	if s.LimitsFor != nil {
-		mb, mh := s.LimitsFor(route)
+	if plan != nil || s.LimitsFor != nil {
+		var mb int64
+		var mh int
+		if plan != nil {
+			mb, mh = plan.MaxBodyBytes, plan.MaxHeaderBytes
+		} else {
+			mb, mh = s.LimitsFor(route)
+		}
 		if mb > 0 {
 			maxBody = mb
 		}
@@ -122,8 +169,14 @@ func (s *Server) ServeHTTP(w http.ResponseWriter, r *http.Request) {
 	}
 
 	var forwardCopied map[string]string
-	if s.ForwardAuthFor != nil {
-		if a := s.ForwardAuthFor(route); a != nil {
+	if plan != nil || s.ForwardAuthFor != nil {
+		var a *ForwardAuth
+		if plan != nil {
+			a = plan.ForwardAuth
+		} else {
+			a = s.ForwardAuthFor(route)
+		}
+		if a != nil {
 			copied, status := a.Authorize(r, requestPath, body)
 			if status != 0 {
 				w.WriteHeader(status)
@@ -135,8 +188,14 @@ func (s *Server) ServeHTTP(w http.ResponseWriter, r *http.Request) {
 		}
 	}
 
-	if s.HMACAuthFor != nil {
-		if a := s.HMACAuthFor(route); a != nil {
+	if plan != nil || s.HMACAuthFor != nil {
+		var a *HMACAuth
+		if plan != nil {
+			a = plan.HMACAuth
+		} else {
+			a = s.HMACAuthFor(route)
+		}
+		if a != nil {
 			if err := a.Verify(r, requestPath, body); err != nil {
 				w.WriteHeader(http.StatusUnauthorized)
 				s.observe(false, 0)
@@ -164,7 +223,11 @@ func (s *Server) ServeHTTP(w http.ResponseWriter, r *http.Request) {
 	env.Headers = headers
 
 	targets := []string{s.Target}
-	if s.TargetsFor != nil {
+	if plan != nil {
+		if len(plan.Targets) > 0 {
+			targets = plan.Targets
+		}
+	} else if s.TargetsFor != nil {
 		if t := s.TargetsFor(route); len(t) > 0 {
 			targets = t
 		}
